@@ -14,14 +14,26 @@ Prop == IOEnv.PROP
 
 VARIABLES l, g
 
-MonInit == l = 1 /\ g = GhostInit
+\* C06 (jitter): over all back-off waits of the log, both halves of each window must occur.
+\* TLC registers 11..14 count <window k, half h> as 9 + 2k + h.
+JitReg(k, h) == 9 + 2 * k + h
+MonInit == /\ l = 1 /\ g = GhostInit
+           /\ \A i \in 11..14 : TLCSet(i, 0)
+
+NoteJitter(e) ==
+  IF e.k = "tm.arm" /\ g.c.inCheck /\ e.t = "for" /\ Len(g.c.ucs) \in {1, 2}
+    THEN LET k == Len(g.c.ucs)
+             h == IF e.ms < (IF k = 1 THEN 1000 ELSE 2000) THEN 0 ELSE 1
+         IN TLCSet(JitReg(k, h), TLCGet(JitReg(k, h)) + 1)
+    ELSE TRUE
 
 MonNext ==
   /\ l <= Len(Rec)
   /\ LET e == Rec[l]
          g2 == GhostStep(g, e)
          newv == {v \in g2.viol \ g.viol : Prop = "ALL" \/ v[1] = Prop}
-     IN /\ (newv # {} => PrintT("MONITOR-REJECT " \o ToString(l) \o " " \o ToString(newv)))
+     IN /\ NoteJitter(e)
+        /\ (newv # {} => PrintT("MONITOR-REJECT " \o ToString(l) \o " " \o ToString(newv)))
         /\ g' = g2
   /\ l' = l + 1
 
@@ -31,4 +43,10 @@ Consumed ==
   LET n == TLCGet("stats").diameter - 1 IN
   /\ PrintT("MONITOR-DONE " \o ToString(n) \o " " \o ToString(Len(Rec)))
   /\ n = Len(Rec)
+  /\ \A k \in {1, 2} :
+       LET lo == TLCGet(JitReg(k, 0))
+           hi == TLCGet(JitReg(k, 1)) IN
+       /\ PrintT("MONITOR-JITTER " \o ToString(k) \o " " \o ToString(lo) \o " " \o ToString(hi))
+       /\ (lo + hi >= 64 /\ (lo = 0 \/ hi = 0) /\ Prop \in {"ALL", "C06"}
+             => PrintT("MONITOR-REJECT 0 {<<\"C06\", \"backoff-not-randomised\">>}"))
 =============================================================================
